@@ -56,7 +56,7 @@ LabelsC01 == {"C01_OrderIds", "C01_CsrNames", "C01_CsrSubject", "C01_CsrDigest",
 LabelsC02 == {"C02_CertIsServedChain", "C02_KeyIsCsrKey"}
 LabelsC03 == {"C03_PairOK", "C03_Untouched"}
 LabelsC05 == {"C05_ConfiguredType", "C05_Proof", "C05_HooksBeforeReady", "C05_NoHookWhenValid",
-              "C05_CleanSameData", "C05_PostsConfiguredType"}
+              "C05_CleanSameData", "C05_PostsConfiguredType", "C05_SolvableIsSolved"}
 LabelsC07 == {"C07_ExactlyOnePostOp", "C07_SuccessIffInstalled", "C07_FailureCarriesError",
               "C07_PauseAfterFailure", "C07_Alive", "C07_PostOpReportsResult", "C07_HealthySucceeds"}
 
@@ -241,6 +241,9 @@ AttemptEnd(ok, real) ==
 DaemonEnd(clean) ==
     /\ bad' = Chk("C07_Alive", clean)
          \cup Chk("C07_HealthySucceeds", (cfg.healthy /\ attempts > 0) => succeeded)
+         \* every pending authorization gets solved: with a CA that offers what is configured and validates what is proved,
+         \* the certificate is issued (an authorization that is never fetched shows as an order that never becomes ready)
+         \cup Chk("C05_SolvableIsSolved", (cfg.healthy /\ attempts > 0) => succeeded)
     /\ phase' = "idle" /\ lastFail' = NoFail /\ succeeded' = FALSE
     /\ Keep(<<cfg, keyFile, certFile, reached, authz, authzSeen, hooksRun, cleanDue, csr, served,
               keyUsed, wrote, postOps, result, snapshot, clock, attempts>>)
